@@ -68,7 +68,34 @@ def lean_batch(lines, jobs=None):
         if len(outs[i]) != len(chunks[i]):
             raise RuntimeError("driver returned %d lines for %d requests" % (len(outs[i]), len(chunks[i])))
         res[i::jobs] = outs[i]
+    # sample for the interpreter cross-check of the thorough tier (see interp_crosscheck)
+    if len(XCHK) < XCHK_MAX:
+        step = max(1, len(lines) // 40)
+        for k in range(0, len(lines), step):
+            if len(XCHK) < XCHK_MAX and len(lines[k]) < 4000:
+                XCHK.append((lines[k], res[k]))
     return res
+
+
+XCHK = []
+XCHK_MAX = 400
+
+
+def interp_crosscheck(limit_s=600):
+    """The theorems are about the Lean definitions, the correspondence runs the COMPILED driver.  Thorough tier: a
+    sample of this run's request lines is evaluated again by the Lean interpreter (`lake env lean --run
+    Main.lean`, no native code of ours) and must give the same answers.  -> dict for the evidence"""
+    if not XCHK:
+        return {"lines": 0, "mismatches": 0}
+    p = subprocess.run(["lake", "env", "lean", "--run", "Main.lean"], cwd=os.path.join(VERIF, "lean"),
+                       input="\n".join(l for l, _ in XCHK) + "\n", capture_output=True, text=True, timeout=limit_s)
+    got = p.stdout.split("\n")
+    if got and got[-1] == "":
+        got.pop()
+    bad = [(l, a, g) for (l, a), g in zip(XCHK, got) if a != g]
+    return {"cmd": "cd lean && lake env lean --run Main.lean < sampled request lines", "lines": len(XCHK),
+            "answers": len(got), "mismatches": len(bad) + abs(len(got) - len(XCHK)),
+            "first_mismatch": (bad[0] if bad else None)}
 
 
 # ----------------------------------------------------------------------------- graph encoding
@@ -449,6 +476,7 @@ class Evidence:
             "theorems": proof.get("theorems", []),
             "axioms": proof.get("axioms", {}),
             "leanchecker": proof.get("leanchecker"),
+            "interpreter_crosscheck": proof.get("interpreter_crosscheck"),
             "evaluations": self.evaluations,
             "distinct_nontrivial": len(self.nontrivial),
             "rule": self.rule,
